@@ -276,7 +276,13 @@ func (q *Queue) handleDebugQueue(w http.ResponseWriter, r *http.Request) {
 // SetIndexed sets what the currently indexed options are for opts.RepoID.
 func (q *Queue) SetIndexed(opts IndexOptions, state indexState) {
 	q.mu.Lock()
-	item := q.getOrAdd(opts.RepoID)
+	item := q.get(opts.RepoID)
+	if item == nil {
+		// The repository is not tracked (it was removed while its job was
+		// running): do not bring it back as an item without options.
+		q.mu.Unlock()
+		return
+	}
 
 	item.indexState = state
 	if state != indexStateFail {
